@@ -1,6 +1,7 @@
 (* Properties_C14.v — C14: HEAD responses carry the GET headers and never a body. *)
 From Via Require Import M_Char M_Encode M_Parse M_Receive M_Server P_Server.
 From Via Require Import M_Imp M_Query Gen_Parse P_Query.
+From Via Require Import M_Str P_Str.
 Local Open Scope N_scope.
 
 Theorem C14_head_same_header_no_body : forall o w c rp hdr body,
@@ -26,3 +27,9 @@ Print Assumptions C14_head_same_header_no_body.
 Theorem C14_is_head_is_the_source : forall q, rq_ev q rq_is_head_src = rq_is_head q.
 Proof. exact rq_is_head_is_the_source. Qed.
 Print Assumptions C14_is_head_is_the_source.
+
+(* the head of a HEAD response is built by the translated tx_response::message (see Properties_C04.v) *)
+Theorem C14_response_message_is_the_source : forall r n,
+  srun (mk_senv (response_line_string r) (rs_headers r) (rs_status r) n) tx_response_message_src = Some (response_message r n).
+Proof. exact response_message_is_the_source. Qed.
+Print Assumptions C14_response_message_is_the_source.
